@@ -399,6 +399,39 @@ def run_find(root, backend, name, consume=False):
     return None
 
 
+def run_install(root, backend, name):
+    """a data file with the name, installed by the real doppel through the generated install rule
+    and removed again by uninstall (the name only ever appears as a command argument)"""
+    fname = name + '.dat'
+    script = "install(generic_file(%r), directory=Path('dd', InstallRoot.datadir))\n" % fname
+    pfx = os.path.join(root, 'pfx')
+    try:
+        pr = proj.Proj(root, backend, {fname: 'payload\n'}, script, args=['--prefix=' + pfx])
+    except OSError:
+        return None
+    os.remove(os.path.join(pr.bin, 'doppel'))
+    r0 = pr.configure()
+    if r0.rc != 0:
+        return 'configure fails: ' + (r0.err.strip().splitlines()[-1][:200] if r0.err.strip() else '')
+    rc, out, recs = pr.run(['install'], timeout=30)
+    want = os.path.join(pfx, 'share', 'dd', fname)
+    got = sorted(os.path.join(b, f) for b, ds, fs in os.walk(pfx) for f in fs) if os.path.isdir(pfx) else []
+    if rc != 0:
+        return 'install fails: %s' % out[-200:]
+    if got != [want]:
+        return 'install created %r, expected exactly %r' % ([g.replace(root, '<root>') for g in got],
+                                                           want.replace(root, '<root>'))
+    if open(want).read() != 'payload\n':
+        return 'installed file has the wrong content'
+    rc, out, recs = pr.run(['uninstall'], timeout=30)
+    left = sorted(os.path.join(b, f) for b, ds, fs in os.walk(pfx) for f in fs)
+    if rc != 0 or left:
+        return 'uninstall fails or leaves %r: %s' % ([g.replace(root, '<root>') for g in left], out[-150:])
+    if sorted(os.listdir(pr.src)) != sorted(['build.bfg', fname]):
+        return 'the source tree was changed: %r' % sorted(os.listdir(pr.src))
+    return None
+
+
 def _shard(arg):
     backend, namelist, do_find = arg
     root = os.path.join(core.worker_dir(), 'c04')
@@ -430,6 +463,8 @@ def _shard(arg):
                 n += 1
             else:
                 excluded.append('find')
+            results['install'] = run_install(os.path.join(root, 'p'), backend, name)
+            n += 1
             if feasible(backend, 'findsrc', name, wit):
                 results['findsrc'] = run_find(os.path.join(root, 'p'), backend, name, consume=True)
                 n += 1
@@ -496,7 +531,7 @@ def run(ctx):
              'a hand-written reference Makefile (search over raw/backslash encodings per special character, run by the '
              'real make) can express the name in every slot the role uses; for Ninja when the name has no `|`. '
              'distinct = names' % (len(nl), '; all pairs of special characters xc1c2y' if ctx.thorough else '',
-                                   ROLES + ['find', 'findsrc']),
+                                   ROLES + ['find', 'findsrc', 'install']),
         samples=samples or [dict(name=nl[0])],
         exhaustive=True, demanded=demanded, excluded_infeasible=excluded,
         excluded_names={k: ''.join(sorted(set(''.join(c for c in n if not c.isalnum()) for n in v)))[:80]
@@ -513,7 +548,9 @@ def replay(rec):
     root = os.path.join(core.worker_dir(), 'c04r')
     shutil.rmtree(root, ignore_errors=True)
     os.makedirs(root)
-    if c['role'] in ('find', 'findsrc'):
+    if c['role'] == 'install':
+        v = run_install(os.path.join(root, 'p'), c['backend'], c['name'])
+    elif c['role'] in ('find', 'findsrc'):
         v = run_find(os.path.join(root, 'p'), c['backend'], c['name'], consume=c['role'] == 'findsrc')
     else:
         v = run_roles(os.path.join(root, 'p'), c['backend'], c['name'], [c['role']])[c['role']]
